@@ -1,4 +1,4 @@
-// props: C05 C14
+// props: C05 C14 C06
 // mount: src/bases/block.rs
 // C05.a/b: the block checksum is CRC-32C (poly 0x1EDC6F41, init 0xFFFFFFFF, no reflection, no xorout), stored big-endian
 // right after the data; assert_slice_crc accepts exactly the buffers whose last 4 bytes are that CRC of the rest.
